@@ -7,13 +7,15 @@ import RigModel.Model.C10
 import RigModel.Gen.PyFun
 import Mathlib.Tactic.SplitIfs
 import RigModel.Lemmas.IntBits
+import RigModel.Lemmas.C10Dict
+import RigModel.Props.C10
 set_option linter.unusedSimpArgs false
 set_option linter.unusedVariables false
 set_option linter.unusedTactic false
 set_option linter.unreachableTactic false
 
 namespace Rig.C10
-open Rig.Gen Rig.Gen.Router Rig.IntBits
+open Rig.Gen Rig.Gen.Router Rig.IntBits Rig.Gen.PyFun Rig.PyDict
 
 /-- the Python outcome of `Routes.opposite` in the model's vocabulary -/
 def ofPy : Except String Int → Except Err (Option Nat)
@@ -105,5 +107,311 @@ theorem gen_unpack_routing_table_entry (bs : List Nat) :
     · simp only [e1, e1', hr, if_true, unpackPy]
     · simp only [e1, e1', hr, if_false, unpackPy]
       simp (disch := decide) only [lit_natCast, land_natCast, shr_natCast, Int.toNat_natCast]
+
+/-! ### `routing_tree_to_tables` (sixth translator round: `Gen/PyFunTables.lean`, the `do`-subset of
+harness/gen/pydo.py - a defaultdict of OrderedDicts of named tuples of sets, the merge rule,
+`MultisourceRouteError(key, mask, (x, y))`, the conversion to `RoutingTableEntry` lists).
+
+The body of the function is regenerated from the source on every run; `tree.traverse()` (a generator over an
+object graph) stays the hand model `traverse` (`traverse_exact`) and its result is the input.  Python's
+`route_sets` is `nestOf` of the model's flat slot list (Lemmas/C10Dict.lean).  The proofs are semantic: the
+generated loop body is normalised by the dict lemmas (`getD_touch`, `pyDictMod_touch`, `lookup_itemsOf`, ...) and
+then split on the outcome of the lookup, so rewrites that keep the meaning keep the proof. -/
+
+/-- the model's errors as Python exceptions (class name, integer arguments) -/
+def errPy : Err → PyExc
+  | .multisource k m c => ("MultisourceRouteError", [k, m, c.1, c.2])
+  | .assertion => ("AssertionError", [])
+  | .valueError => ("ValueError", [])
+
+def resPy {α β : Type} (f : α → β) : Except Err α → Except PyExc β
+  | .ok a => .ok (f a)
+  | .error e => .error (errPy e)
+
+def Visit.py (v : Visit) : Option Nat × (Nat × Nat) × List Nat := (v.dir, v.chip, v.outs)
+
+theorem pySetEq_eq (a b : List Nat) : pySetEq a b = sameSet a b := rfl
+theorem pySetAdd_eq (s : List (Option Nat)) (d : Option Nat) : pySetAdd s d = addIn d s := rfl
+
+/-- `direction.opposite` as generated, through the `do`-subset's wrapper -/
+theorem natProp_opposite (r : Nat) :
+    pyNatProp Routes_opposite r = if r < 6 then .ok ((r + 3) % 6) else .error ("ValueError", []) := by
+  simp only [pyNatProp, PyFun.Routes_opposite, PyFun.Routes_is_link,
+    Int.fmod_eq_emod_of_nonneg _ (by decide : (0 : Int) ≤ 6), List.contains_eq_mem, List.mem_cons,
+    List.mem_nil_iff, or_false, decide_eq_true_eq, Bool.not_eq_true', decide_eq_false_iff_not, Bool.not_eq_true]
+  split_ifs
+  all_goals first
+    | rfl
+    | omega
+    | (simp only []; refine congrArg Except.ok ?_; omega)
+
+/-- everything after `in_direction` is known: the lookup, the multi-source test, the merge / the new route set -/
+theorem gen_step_core (key mask : Nat) (st : List Slot) (c : ChipXY) (outs : List Nat) (d : Option Nat)
+    (R : Except PyExc (List (ChipXY × List ((Nat × Nat) × (List (Option Nat) × List Nat)))))
+    (hsome : ∀ s, st.find? (fun s => s.at c key mask) = some s →
+      R = if sameSet s.outs outs then
+            .ok (pyDictMod (nestOf st) c [] (fun d' => pyDictAdj d' (key, mask) (fun v => (addIn d v.1, v.2))))
+          else .error ("MultisourceRouteError", [key, mask, c.1, c.2]))
+    (hnone : st.find? (fun s => s.at c key mask) = none →
+      R = .ok (pyDictMod (nestOf st) c [] (fun d' => pyDictSet d' (key, mask) ([d], outs)))) :
+    R = resPy nestOf (match st.find? (fun s => s.at c key mask) with
+      | some s =>
+        if sameSet s.outs outs then
+          .ok (st.map (fun s' => if s'.at c key mask then { s' with ins := addIn d s'.ins } else s'))
+        else .error (.multisource key mask c)
+      | none => .ok (st ++ [{ chip := c, key := key, mask := mask, ins := [d], outs := outs }])) := by
+  cases hf : st.find? (fun s => s.at c key mask) with
+  | none =>
+    rw [hnone hf, insert_nestOf st c key mask [d] outs hf]
+    rfl
+  | some s =>
+    rw [hsome s hf]
+    have hc : c ∈ chipsOf st := by
+      have h1 := List.mem_of_find?_eq_some hf
+      have h2 := List.find?_some hf
+      exact (mem_chipsOf st c).2 ⟨s, h1, ((Slot.at_iff s c key mask).1 h2).1⟩
+    rw [merge_nestOf st c key mask (addIn d) hc]
+    simp only []
+    split <;> rfl
+
+theorem sameSet_comm (a b : List Nat) : sameSet a b = sameSet b a := by
+  unfold sameSet; exact Bool.and_comm _ _
+
+/-- closes the two side goals of `gen_step_core` once the direction is known; independent of the order of the
+operands of the set comparison and of how the tests on `None` are written -/
+macro "gen_step_close" : tactic => `(tactic| (
+  apply gen_step_core
+  · intro s hs
+    have hcomm := sameSet_comm s.outs ‹List Nat›
+    cases hss : sameSet s.outs ‹List Nat› <;> rw [hss] at hcomm <;>
+      simp [hs, hss, ← hcomm]
+  · intro hn
+    simp [hn]
+    try rfl))
+
+theorem gen_step (key mask : Nat) (st : List Slot) (v : Visit) :
+    routing_tree_to_tables_loop2 key mask (nestOf st) v.py = resPy nestOf (step key mask st v) := by
+  obtain ⟨dir, ⟨x, y⟩, outs⟩ := v
+  unfold routing_tree_to_tables_loop2 Visit.py step
+  simp only [bind, Except.bind, pure, Except.pure, throw, throwThe, MonadExceptOf.throw,
+    touch_touch, getD_touch, pyDictMod_touch, getD_nestOf, pyDictHas, pyDictGet, lookup_itemsOf,
+    pySetEq_eq, pySetAdd_eq, pyLift]
+  cases dir with
+  | none =>
+    simp only [inDir, pyOptAttr, beq_iff_eq, bne_iff_ne, ne_eq, reduceCtorEq, not_true_eq_false, not_false_eq_true,
+      if_true, if_false, Bool.false_eq_true, bne_self_eq_false, beq_self_eq_true]
+    gen_step_close
+  | some r =>
+    simp only [inDir, pyOptAttr, natProp_opposite, beq_iff_eq, bne_iff_ne, ne_eq, reduceCtorEq, not_true_eq_false,
+      not_false_eq_true, if_true, if_false, Bool.false_eq_true]
+    by_cases hr : r < 6
+    · simp only [hr, if_true]
+      gen_step_close
+    · simp only [hr, if_false]
+      try rfl
+
+theorem gen_stepAll (key mask : Nat) : ∀ (vs : List Visit) (st : List Slot),
+    List.foldlM (routing_tree_to_tables_loop2 key mask) (nestOf st) (vs.map Visit.py)
+      = resPy nestOf (stepAll key mask st vs)
+  | [], st => rfl
+  | v :: vs, st => by
+    rw [List.map_cons, List.foldlM_cons, gen_step, stepAll]
+    cases h : step key mask st v with
+    | error e => rfl
+    | ok st' => exact gen_stepAll key mask vs st'
+
+/-- what `tree.traverse()` hands to the loop: the items yielded by the hand-modelled traversal -/
+def travPy (n : Net) : List (Option Nat × (Nat × Nat) × List Nat) := (traverse n.tree).1.map Visit.py
+
+/-- one net: `key, mask = net_keys[net]` and the loop over the traversal -/
+theorem gen_processNet (net_keys : List (Nat × (Nat × Nat))) (st : List Slot) (i : Nat) (n : Net)
+    (hk : net_keys.lookup i = some (n.key, n.mask)) (ht : (traverse n.tree).2 = false) :
+    routing_tree_to_tables_loop1 net_keys (nestOf st) (i, travPy n) = resPy nestOf (processNet st n) := by
+  unfold routing_tree_to_tables_loop1 processNet travPy
+  simp only [bind, Except.bind, pure, Except.pure, pyLift, pyDictGet, hk, gen_stepAll, ht]
+  cases stepAll n.key n.mask st (traverse n.tree).1 <;> rfl
+
+theorem gen_processNets (net_keys : List (Nat × (Nat × Nat))) : ∀ (L : List (Nat × Net)) (st : List Slot),
+    (∀ p ∈ L, net_keys.lookup p.1 = some (p.2.key, p.2.mask)) → (∀ p ∈ L, (traverse p.2.tree).2 = false) →
+    List.foldlM (routing_tree_to_tables_loop1 net_keys) (nestOf st) (L.map (fun p => (p.1, travPy p.2)))
+      = resPy nestOf (processNets st (L.map (·.2)))
+  | [], st, _, _ => rfl
+  | p :: L, st, hk, ht => by
+    rw [List.map_cons, List.foldlM_cons, gen_processNet net_keys st p.1 p.2 (hk p (by simp)) (ht p (by simp)),
+      List.map_cons, processNets]
+    cases h : processNet st p.2 with
+    | error e => rfl
+    | ok st' =>
+      exact gen_processNets net_keys L st' (fun q hq => hk q (by simp [hq])) (fun q hq => ht q (by simp [hq]))
+
+/-! ### the second phase: route sets to `RoutingTableEntry` lists -/
+
+/-- `RoutingTableEntry(route, key, mask, sources)` as the tuple of its fields -/
+def Entry.py (e : Entry) : List Nat × Nat × Nat × List (Option Nat) := (e.route, e.key, e.mask, e.sources)
+def tablesPy (T : Tables) : List (ChipXY × List (List Nat × Nat × Nat × List (Option Nat))) :=
+  T.map (fun ct => (ct.1, ct.2.map Entry.py))
+
+abbrev PyItem := (Nat × Nat) × (List (Option Nat) × List Nat)
+def convItem (i : PyItem) : List Nat × Nat × Nat × List (Option Nat) := (i.2.2, i.1.1, i.1.2, i.2.1)
+
+theorem gen_loop4 (x y : Nat) (acc) (i : PyItem) :
+    routing_tree_to_tables_loop4 x y acc i = .ok (pyDictMod acc (x, y) [] (fun l => l ++ [convItem i])) := by
+  obtain ⟨⟨k, m⟩, r⟩ := i
+  rfl
+
+theorem mod_append_last {β : Type} (acc : List (ChipXY × List β)) (c : ChipXY) (l : List β) (e : β)
+    (h : acc.lookup c = none) :
+    pyDictMod (acc ++ [(c, l)]) c [] (fun l => l ++ [e]) = acc ++ [(c, l ++ [e])] := by
+  unfold pyDictMod pyDictGetD
+  rw [pyDictSet_append_of_none _ _ _ _ h, List.lookup_append, h]
+  simp [pyDictSet, List.lookup]
+
+theorem gen_loop4_all (x y : Nat) (acc) (h : acc.lookup (x, y) = none) : ∀ (d : List PyItem) (l),
+    List.foldlM (routing_tree_to_tables_loop4 x y) (acc ++ [((x, y), l)]) d
+      = .ok (acc ++ [((x, y), l ++ d.map convItem)])
+  | [], l => by simp [pure, Except.pure]
+  | i :: d, l => by
+    rw [List.foldlM_cons, gen_loop4, mod_append_last _ _ _ _ h]
+    simp only [bind, Except.bind]
+    rw [gen_loop4_all x y acc h d]
+    simp
+
+theorem gen_loop3 (acc) (c : ChipXY) (d : List PyItem) (h : acc.lookup c = none) (hd : d ≠ []) :
+    routing_tree_to_tables_loop3 acc (c, d) = .ok (acc ++ [(c, d.map convItem)]) := by
+  obtain ⟨x, y⟩ := c
+  unfold routing_tree_to_tables_loop3
+  simp only [bind, Except.bind, pure, Except.pure]
+  match d, hd with
+  | i :: d, _ =>
+    rw [List.foldlM_cons, gen_loop4]
+    simp only [bind, Except.bind]
+    have : pyDictMod acc (x, y) [] (fun l => l ++ [convItem i]) = acc ++ [((x, y), [convItem i])] := by
+      unfold pyDictMod pyDictGetD
+      rw [h, pyDictSet_of_lookup_none _ _ _ h]
+      rfl
+    rw [this, gen_loop4_all x y acc h d]
+    simp
+
+theorem gen_loop3_all : ∀ (N : List (ChipXY × List PyItem)) (acc),
+    (N.map (·.1)).Nodup → (∀ p ∈ N, acc.lookup p.1 = none) → (∀ p ∈ N, p.2 ≠ []) →
+    List.foldlM routing_tree_to_tables_loop3 acc N = .ok (acc ++ N.map (fun p => (p.1, p.2.map convItem)))
+  | [], acc, _, _, _ => by simp [pure, Except.pure]
+  | p :: N, acc, hn, ha, hd => by
+    obtain ⟨c, d⟩ := p
+    rw [List.foldlM_cons, gen_loop3 acc c d (ha (c, d) (by simp)) (hd (c, d) (by simp))]
+    simp only [bind, Except.bind]
+    simp only [List.map_cons, List.nodup_cons] at hn
+    rw [gen_loop3_all N _ hn.2 _ (fun q hq => hd q (by simp [hq]))]
+    · simp
+    · intro q hq
+      rw [List.lookup_append, ha q (by simp [hq])]
+      have : q.1 ≠ c := fun e => hn.1 (e ▸ List.mem_map_of_mem hq)
+      have : (q.1 == c) = false := by simpa using this
+      simp [List.lookup, this]
+
+theorem itemsOf_ne_nil (st : List Slot) (c : ChipXY) (h : c ∈ chipsOf st) : itemsOf st c ≠ [] := by
+  obtain ⟨s, hs, hc⟩ := (mem_chipsOf st c).1 h
+  unfold itemsOf
+  intro e
+  rw [List.map_eq_nil_iff, List.filter_eq_nil_iff] at e
+  exact e s hs (by simp [hc])
+
+theorem gen_tables_of (st : List Slot) :
+    List.foldlM routing_tree_to_tables_loop3 [] (nestOf st) = .ok (tablesPy (tablesOf st)) := by
+  rw [gen_loop3_all (nestOf st) [] (nodup_keys_nestOf st) (fun _ _ => rfl)]
+  · simp only [List.nil_append, nestOf, tablesPy, tablesOf, List.map_map]
+    congr 1
+    apply List.map_congr_left
+    intro c _
+    simp only [Function.comp, itemsOf, List.map_map]
+    rfl
+  · intro p hp
+    simp only [nestOf, List.mem_map] at hp
+    obtain ⟨c, hc, rfl⟩ := hp
+    exact itemsOf_ne_nil st c hc
+
+/-- **`routing_tree_to_tables` as written in the source = the model's `treeTables`**, for every dict of nets
+(`L`: the items of `routes` in iteration order, each net id with its tree), every `net_keys` that has the
+nets' keys, and the traversal results the hand-modelled `traverse` yields (no assertion: `traverse_exact`). -/
+theorem gen_tree_tables (L : List (Nat × Net)) (net_keys : List (Nat × (Nat × Nat)))
+    (hk : ∀ p ∈ L, net_keys.lookup p.1 = some (p.2.key, p.2.mask)) (hwf : ∀ p ∈ L, p.2.tree.WF) :
+    routing_tree_to_tables (L.map (fun p => (p.1, travPy p.2))) net_keys
+      = resPy tablesPy (treeTables (L.map (·.2))) := by
+  unfold routing_tree_to_tables treeTables
+  simp only [bind, Except.bind, pure, Except.pure]
+  have h0 : ([] : List (ChipXY × List PyItem)) = nestOf [] := rfl
+  rw [h0, gen_processNets net_keys L [] hk (fun p hp => (traverse_spec p.2.tree (hwf p hp)).1)]
+  cases processNets [] (L.map (·.2)) with
+  | error e => rfl
+  | ok st => simp only [resPy, gen_tables_of]
+
+
+/-- nothing is lost in the comparison: the model's outcome can be read back from the Python outcome -/
+theorem errPy_injective : Function.Injective errPy := by
+  intro a b h
+  cases a <;> cases b <;> simp [errPy] at h ⊢
+  obtain ⟨h1, h2, h3, h4⟩ := h
+  exact ⟨h1, h2, Prod.ext h3 h4⟩
+
+theorem map_injective' {α β : Type} (f : α → β) (hf : Function.Injective f) : Function.Injective (List.map f) := by
+  intro a
+  induction a with
+  | nil => intro b h; cases b <;> simp_all
+  | cons x xs ih =>
+    intro b h
+    cases b with
+    | nil => simp at h
+    | cons y ys =>
+      simp only [List.map_cons, List.cons.injEq] at h
+      rw [hf h.1, ih h.2]
+
+theorem tablesPy_injective : Function.Injective tablesPy := by
+  unfold tablesPy
+  apply map_injective'
+  rintro ⟨c1, es1⟩ ⟨c2, es2⟩ h
+  simp only [Prod.mk.injEq] at h ⊢
+  refine ⟨h.1, map_injective' _ ?_ h.2⟩
+  rintro ⟨r1, k1, m1, s1⟩ ⟨r2, k2, m2, s2⟩ he
+  simp only [Entry.py, Prod.mk.injEq] at he
+  simp [he.1, he.2.1, he.2.2.1, he.2.2.2]
+
+theorem resPy_injective {α β : Type} (f : α → β) (hf : Function.Injective f) : Function.Injective (resPy f) := by
+  intro a b h
+  cases a <;> cases b <;> simp only [resPy, Except.ok.injEq, Except.error.injEq, reduceCtorEq] at h
+  · exact congrArg _ (errPy_injective h)
+  · exact congrArg _ (hf h)
+
+/-- **The first clause of C10, about the code as written**: what the generated `routing_tree_to_tables` returns
+or raises is the Python form of a result that satisfies `TablesSpec` (tables exact and no conflict, or the
+multi-source error at a real conflict - `tables_exact`, `multisource_iff`), and that result is unique. -/
+theorem gen_tables_spec (L : List (Nat × Net)) (net_keys : List (Nat × (Nat × Nat)))
+    (hk : ∀ p ∈ L, net_keys.lookup p.1 = some (p.2.key, p.2.mask)) (hwf : ∀ p ∈ L, p.2.tree.WF) :
+    ∃ r, routing_tree_to_tables (L.map (fun p => (p.1, travPy p.2))) net_keys = resPy tablesPy r ∧
+      TablesSpec (L.map (·.2)) r ∧
+      ∀ r', routing_tree_to_tables (L.map (fun p => (p.1, travPy p.2))) net_keys = resPy tablesPy r' → r' = r := by
+  refine ⟨treeTables (L.map (·.2)), gen_tree_tables L net_keys hk hwf, ?_, ?_⟩
+  · apply tables_spec
+    intro n hn
+    obtain ⟨p, hp, rfl⟩ := List.mem_map.1 hn
+    exact hwf p hp
+  · intro r' h
+    rw [gen_tree_tables L net_keys hk hwf] at h
+    exact (resPy_injective tablesPy tablesPy_injective h).symm
+
+
+/-- the hypotheses are satisfiable on a non-trivial instance (two nets sharing a key on a two-chip tree), and
+there the generated function returns the two tables -/
+example :
+    let t : Tree := .node (0, 0) (.sub (some 0) (.node (1, 0) (.leaf (some 7) .nil)) .nil)
+    let L : List (Nat × Net) := [(5, ⟨3, 15, t⟩), (9, ⟨3, 15, t⟩)]
+    routing_tree_to_tables (L.map (fun p => (p.1, travPy p.2))) [(9, (3, 15)), (5, (3, 15))]
+      = .ok [((0, 0), [([0], 3, 15, [none])]), ((1, 0), [([7], 3, 15, [some 3])])] := by
+  intro t L
+  have hwf : ∀ p ∈ L, p.2.tree.WF := by
+    intro p hp
+    simp only [L, List.mem_cons, List.mem_nil_iff, or_false] at hp
+    rcases hp with rfl | rfl <;> exact ⟨⟨0, rfl, by decide⟩, trivial, trivial⟩
+  rw [gen_tree_tables L _ (by decide) hwf]
+  rfl
 
 end Rig.C10
